@@ -143,6 +143,20 @@ func domains() []domain {
 		return pick(r, []int(nil), []int{}, []int{1}, []int{1}, []int{1, 2}, []int{2, 1}, make([]int, 0, 8),
 			sliceBase[:0], sliceBase[:2], sliceBase[:4], sliceBase[:2:2], sliceBase[1:3], sliceBase[:0:0])
 	})
+	// bytes: arrays of them are values (and not addressable when they arrive as arguments), nil and empty slices differ
+	add("byte array", [4]byte{}, func(r *vmon.Rng) interface{} {
+		return pick(r, [4]byte{}, [4]byte{1, 2, 3, 4}, [4]byte{1, 2, 3, 5}, [4]byte{0, 0, 0, 1})
+	})
+	add("named byte array", Digest{}, func(r *vmon.Rng) interface{} {
+		return pick(r, Digest{}, Digest{15: 1}, Digest{0: 1}, Digest{15: 1})
+	})
+	add("byte slice", []byte(nil), func(r *vmon.Rng) interface{} {
+		return pick(r, []byte(nil), []byte{}, []byte{1}, []byte{1}, []byte{2}, []byte("ab"), []byte("ab"), make([]byte, 0, 4))
+	})
+	add("pointer to byte slice", (*[]byte)(nil), func(r *vmon.Rng) interface{} {
+		a, b, c, d := []byte(nil), []byte{}, []byte{1}, []byte{1}
+		return pick(r, (*[]byte)(nil), &a, &b, &c, &d)
+	})
 	add("slice of zero-size elements", []struct{}(nil), func(r *vmon.Rng) interface{} {
 		return pick(r, []struct{}(nil), []struct{}{}, structSliceBase[:1], structSliceBase[:3], make([]struct{}, 3), make([]struct{}, 1))
 	})
@@ -287,6 +301,8 @@ func (l Level) String() string {
 	}
 	return "unknown"
 }
+
+type Digest [16]uint8
 
 // opaque named numbers whose text says nothing (or not enough) about the value
 type Handle uintptr
